@@ -9,7 +9,7 @@ the wrong object."""
 import os, subprocess, random
 
 VERIF = os.path.dirname(os.path.dirname(os.path.abspath(__file__)))
-COQ = os.path.join(VERIF, "coq")
+COQ = os.environ.get("VERIF_COQ") or os.path.join(VERIF, "coq")
 
 
 def hexbytes(h):
